@@ -29,18 +29,22 @@ type Stress struct {
 	SleepUs   []int // handler sleep per request ordinal (cyclic), microseconds
 	Mode      string // blind: Shutdown is retried from the very beginning, without waiting for the start notification
 	//                  timed: Shutdown DelayUs after the start notification
-	DelayUs  int
-	Restarts int // number of start/stop cycles on the same Server value
+	DelayUs     int
+	Restarts    int    // number of start/stop cycles on the same Server value
+	SecondStart string // timed mode: "" | activate | listen – a second ActivateAndServe / ListenAndServe once started (must fail at once)
 }
 
 func genStress(t *rapid.T) Stress {
 	s := Stress{
-		Transport: rapid.SampledFrom([]string{"realUDP", "realTCP", "realTCP", "memTCP", "memTCP", "memPacket"}).Draw(t, "transport"),
+		Transport: rapid.SampledFrom([]string{"realUDP", "realTCP", "realTCP", "memTCP", "memTCP", "memPacket", "lnsUDP", "lnsTCP"}).Draw(t, "transport"),
 		Clients:   rapid.IntRange(0, 8).Draw(t, "clients"),
 		Reqs:      rapid.IntRange(1, 4).Draw(t, "reqs"),
 		Mode:      rapid.SampledFrom([]string{"blind", "timed", "timed", "timed"}).Draw(t, "mode"),
 		DelayUs:   rapid.SampledFrom([]int{0, 0, 5, 20, 50, 100, 200, 400, 800, 1500}).Draw(t, "delay"),
 		Restarts:  rapid.SampledFrom([]int{1, 1, 2, 3}).Draw(t, "cycles"),
+	}
+	if s.Mode == "timed" {
+		s.SecondStart = rapid.SampledFrom([]string{"", "", "activate", "listen"}).Draw(t, "secondStart")
 	}
 	n := rapid.IntRange(1, 4).Draw(t, "nsleep")
 	for i := 0; i < n; i++ {
@@ -137,13 +141,30 @@ func (r *stressRun) cycle(srv *dns.Server, cycle int) (overlap bool, err error) 
 		}
 		udp = p.(*net.UDPConn)
 		srv.PacketConn = udp
+	case "lnsUDP":
+		srv.Net, srv.Addr = "udp", "127.0.0.1:0"
+	case "lnsTCP":
+		srv.Net, srv.Addr = "tcp", "127.0.0.1:0"
 	default:
 		return false, fmt.Errorf("unknown transport %q", s.Transport)
 	}
+	lns := strings.HasPrefix(s.Transport, "lns")
 	started := make(chan struct{})
 	srv.NotifyStartedFunc = func() { close(started) }
 	serveDone := make(chan error, 1)
-	go func() { serveDone <- srv.ActivateAndServe() }()
+	go func() {
+		if lns {
+			serveDone <- srv.ListenAndServe()
+		} else {
+			serveDone <- srv.ActivateAndServe()
+		}
+	}()
+	lnsAddr := func() string { // only valid after the start notification
+		if s.Transport == "lnsTCP" {
+			return srv.Listener.Addr().String()
+		}
+		return srv.PacketConn.LocalAddr().String()
+	}
 
 	var mu sync.Mutex
 	var conns []net.Conn
@@ -161,6 +182,10 @@ func (r *stressRun) cycle(srv *dns.Server, cycle int) (overlap bool, err error) 
 			c, e = net.DialTimeout("tcp", rawLis.Addr().String(), 2*time.Second)
 		case "realUDP":
 			c, e = net.Dial("udp", udp.LocalAddr().String())
+		case "lnsTCP":
+			c, e = net.DialTimeout("tcp", lnsAddr(), 2*time.Second)
+		case "lnsUDP":
+			c, e = net.Dial("udp", lnsAddr())
 		}
 		if e != nil {
 			return nil, e
@@ -180,8 +205,12 @@ func (r *stressRun) cycle(srv *dns.Server, cycle int) (overlap bool, err error) 
 		cwg.Add(1)
 		go func() {
 			defer cwg.Done()
-			if s.Mode == "timed" {
-				<-started
+			if s.Mode == "timed" || lns {
+				select {
+				case <-started:
+				case <-time.After(2 * watchdogFull):
+					return
+				}
 			}
 			c, e := dial(j)
 			if e != nil {
@@ -209,12 +238,29 @@ func (r *stressRun) cycle(srv *dns.Server, cycle int) (overlap bool, err error) 
 	}
 
 	// --- Shutdown
-	var sdErr error
+	var sdErr, secondErr error
+	secondHung := false
 	sdDone := make(chan struct{})
 	go func() {
 		defer close(sdDone)
 		if s.Mode == "timed" {
 			<-started
+			if s.SecondStart != "" {
+				var e2 error
+				if !within(watchdog(), func() {
+					if s.SecondStart == "listen" {
+						e2 = srv.ListenAndServe()
+					} else {
+						e2 = srv.ActivateAndServe()
+					}
+				}) {
+					secondHung = true
+					return
+				}
+				if !isAlreadyStarted(e2) {
+					secondErr = fmt.Errorf("I5: a second %s on a started server returned %v, want the 'server already started' error", s.SecondStart, e2)
+				}
+			}
 			for t0 := time.Now(); time.Since(t0) < time.Duration(s.DelayUs)*time.Microsecond; {
 				runtime.Gosched()
 			}
@@ -266,6 +312,18 @@ func (r *stressRun) cycle(srv *dns.Server, cycle int) (overlap bool, err error) 
 		if udp != nil {
 			udp.Close()
 		}
+		if lns {
+			select {
+			case <-started:
+				if srv.Listener != nil {
+					srv.Listener.Close()
+				}
+				if srv.PacketConn != nil {
+					srv.PacketConn.Close()
+				}
+			default:
+			}
+		}
 		deadline := time.Now().Add(3 * time.Second)
 		for len(dnsGoroutines()) > 0 && time.Now().Before(deadline) {
 			time.Sleep(10 * time.Millisecond)
@@ -275,11 +333,18 @@ func (r *stressRun) cycle(srv *dns.Server, cycle int) (overlap bool, err error) 
 		}
 		return false, fmt.Errorf("I7: %s did not return within the watchdog (%v); %d goroutine(s) stuck inside miekg/dns:\n%s", what, wd, len(stuck), clip(strings.Join(stuck, "\n\n"), 5000))
 	}
-	wd := time.After(watchdog())
+	wd := time.After(2 * watchdog())
 	select {
 	case <-sdDone:
 	case <-wd:
 		return fail("Shutdown")
+	}
+	if secondHung {
+		wedged.Store(true) // two serve loops on one Server value cannot be freed safely
+		return false, fmt.Errorf("I5/I7: a second %s on a started server blocked for %v instead of returning an error; goroutines inside miekg/dns:\n%s", s.SecondStart, watchdog(), clip(strings.Join(dnsGoroutines(), "\n\n"), 4000))
+	}
+	if secondErr != nil {
+		return false, secondErr
 	}
 	if sdErr != nil {
 		return false, fmt.Errorf("I4: Shutdown returned %v", sdErr)
@@ -338,6 +403,15 @@ func (r *stressRun) cycle(srv *dns.Server, cycle int) (overlap bool, err error) 
 		if e := udp.SetReadDeadline(time.Time{}); e == nil {
 			udp.Close()
 			return false, fmt.Errorf("I6: UDP socket was still open after shutdown")
+		}
+	case s.Transport == "lnsTCP":
+		if e := srv.Listener.Close(); e == nil {
+			return false, fmt.Errorf("I6: the TCP listener opened by ListenAndServe was still open after shutdown")
+		}
+	case s.Transport == "lnsUDP":
+		if e := srv.PacketConn.SetReadDeadline(time.Time{}); e == nil {
+			srv.PacketConn.Close()
+			return false, fmt.Errorf("I6: the UDP socket opened by ListenAndServe was still open after shutdown")
 		}
 	}
 	deadline := time.Now().Add(leakPoll)
